@@ -27,7 +27,10 @@ RULE = ("two families. file: size in {0, 1, k*128KiB-1, k*128KiB, k*128KiB+1 "
         "algorithm tuple drawn with order and repetition from the 13 "
         "supported, short reads on or off. session: E-sess history written "
         "with short reads on; every checksum recorded in shards_list.json, "
-        "returned for dataset_info.json and stored for each shard is compared. "
+        "returned for dataset_info.json and stored for each shard is compared "
+        "(a third of the histories label shards with a 43k..131k character "
+        "text of 1..4-byte characters, so that shard lists exceed one "
+        "hashing block in bytes but not in characters). "
         "Oracle: == hashlib.new(a)/xxhash digest of the complete bytes, in the "
         "configured order, lowercase hex. Non-trivial = file larger than one "
         "buffer or a short read fired; distinct = digest of (sizes, algos, "
